@@ -1075,3 +1075,185 @@ Proof.
   destruct (dummy_suffix_bits _ _ _ _ _ _ I) as [Ey|Ey]; rewrite Ey in Q; [destruct Q|].
   destruct Q as [Q|[]]. apply (Hk eq_refl). congruence.
 Qed.
+
+(* ====================================================================== *)
+(* I. the reference exists and is well-formed: c19_finish_values without its wf hypothesis *)
+(* ====================================================================== *)
+
+Lemma wf_instr_mono nq nc nc' x : nc <= nc' -> wf_instr nq nc x = true -> wf_instr nq nc' x = true.
+Proof.
+  unfold wf_instr. intros L H. apply andb_prop in H as [H H3]. apply andb_prop in H as [H1 H2].
+  rewrite H1, H3. simpl. rewrite andb_true_r. rewrite forallb_forall in *. intros k I. specialize (H2 k I).
+  apply Nat.ltb_lt in H2. apply Nat.ltb_lt. lia.
+Qed.
+
+Lemma wf_app nq nc a b : wf nq nc (a ++ b) = wf nq nc a && wf nq nc b.
+Proof. apply forallb_app. Qed.
+
+Lemma wf_ops_on nq nc a s : a < nq -> forall y, In y (ops_on a s) -> wf_instr nq nc y = true \/ (is_marker y = true /\ iqs y = [a]).
+Proof.
+  intros L y I. unfold ops_on in I. apply in_map_iff in I as (o & <- & _).
+  destruct o; [left|right; split; reflexivity|left]; unfold wf_instr; simpl;
+    replace (Nat.ltb a nq) with true by (symmetry; now apply Nat.ltb_lt); reflexivity.
+Qed.
+
+(* every instruction of the spliced stream is well-formed or a one-qubit marker inside the circuit *)
+Definition pre_ok (nq nc : nat) (y : instr) : Prop :=
+  (is_marker y = false /\ wf_instr nq nc y = true) \/ (is_marker y = true /\ exists a, iqs y = [a] /\ a < nq).
+
+Lemma sub_instr_splice (env : benv) nq nc x : sub_instr_ok nq nc x = true ->
+  forall y, In y (splice env x) -> pre_ok nq nc y.
+Proof.
+  unfold sub_instr_ok. intros H y I. apply andb_prop in H as [W A].
+  assert (Q : forall a, In a (iqs x) -> a < nq).
+  { intros a Ia. unfold wf_instr in W. apply andb_prop in W as [W _]. apply andb_prop in W as [W _].
+    rewrite forallb_forall in W. apply Nat.ltb_lt. now apply W. }
+  assert (OPS : forall a s, a < nq -> In y (ops_on a s) -> pre_ok nq nc y).
+  { intros a s L Iy. destruct (wf_ops_on nq nc a s L y Iy) as [Wy|[My Ey]].
+    - unfold ops_on in Iy. apply in_map_iff in Iy as (o & <- & _). destruct o; [left|right|left]; try (split; [reflexivity|assumption]).
+      split; [reflexivity|]. exists a. split; [reflexivity|assumption].
+    - right. split; [assumption|]. exists a. split; assumption. }
+  unfold splice in I.
+  destruct (iop x) as [g0|lb| | | | |b bid l|b h bid l|] eqn:OP;
+    try (destruct I as [<-|[]]; left; split; [unfold Decompose.is_marker; now rewrite OP|assumption]).
+  - apply andb_prop in A as [A _]. apply Nat.eqb_eq in A. destruct (iqs x) as [|a [|a' [|? ?]]] eqn:QS; try discriminate.
+    destruct bid as [m|].
+    + simpl in I. apply in_app_or in I as [I|I]; eapply OPS; eauto; apply Q; simpl; auto.
+    + destruct I as [<-|[]]. left. split; [unfold Decompose.is_marker; now rewrite OP|assumption].
+  - apply andb_prop in A as [A _]. apply Nat.eqb_eq in A. destruct (iqs x) as [|a [|? ?]] eqn:QS; try discriminate.
+    destruct bid as [m|].
+    + simpl in I. eapply OPS; eauto. apply Q. simpl; auto.
+    + destruct I as [<-|[]]. left. split; [unfold Decompose.is_marker; now rewrite OP|assumption].
+  - destruct I as [<-|[]]. right. split; [unfold Decompose.is_marker; now rewrite OP|].
+    apply andb_prop in A as [A _]. apply Nat.eqb_eq in A. destruct (iqs x) as [|a [|? ?]] eqn:QS; try discriminate.
+    exists a. split; [reflexivity|]. apply Q. simpl; auto.
+Qed.
+
+Lemma set_bid_sub_ok nq nc m x : sub_instr_ok nq nc (set_bid m x) = sub_instr_ok nq nc x.
+Proof. unfold sub_instr_ok, wf_instr, set_bid. simpl. destruct (iop x); reflexivity. Qed.
+
+Lemma sub_ok_assign nq nc c ids ms : sub_ok nq nc c = true -> sub_ok nq nc (assign c ids (Some ms)) = true.
+Proof.
+  intros H.
+  assert (R : Forall2 (fun x x' => sub_instr_ok nq nc x' = sub_instr_ok nq nc x) c (assign c ids (Some ms))).
+  { unfold assign, assign_gm. apply mapi_rel. intros j x. destruct (chosen (combine ids ms) j); [apply set_bid_sub_ok|reflexivity]. }
+  unfold sub_ok in *. induction R as [|x x' l l' E R IH]; [reflexivity|].
+  simpl in *. apply andb_prop in H as [H1 H2]. rewrite E, H1. simpl. now apply IH.
+Qed.
+
+Lemma flat_splice_pre_ok (env : benv) nq nc l : sub_ok nq nc l = true ->
+  forall y, In y (flat_map (splice env) l) -> pre_ok nq nc y.
+Proof.
+  unfold sub_ok. rewrite forallb_forall. intros H y I. apply in_flat_map in I as (x & Ix & Iy).
+  eapply sub_instr_splice; eauto.
+Qed.
+
+(* numbering the markers K, K+1, ...: everything lands below K + N when there are at most N markers *)
+Lemma measures_wf nq nc l : forall K N, count_markers l <= N -> nc <= K ->
+  (forall y, In y l -> pre_ok nq nc y) -> wf nq (K + N) (measures_from K l) = true.
+Proof.
+  induction l as [|x r IH]; intros K N C L P; [reflexivity|].
+  unfold count_markers in C. simpl in C. simpl.
+  destruct (P x (or_introl eq_refl)) as [[M W]|[M (a & E & La)]]; rewrite M in *; simpl in *.
+  - unfold wf. simpl. rewrite (wf_instr_mono nq nc (K + N) x) by (try assumption; lia). simpl.
+    apply IH; auto.
+  - unfold wf. simpl. assert (wf_instr nq (K + N) (mkI Measure (iqs x) [K]) = true) as ->.
+    { unfold wf_instr. simpl. rewrite E. simpl.
+      replace (Nat.ltb a nq) with true by (symmetry; now apply Nat.ltb_lt).
+      replace (Nat.ltb K (K + N)) with true by (symmetry; apply Nat.ltb_lt; lia). reflexivity. }
+    simpl. replace (K + N) with (S K + (N - 1)) by lia. apply IH; [unfold count_markers; lia|lia|auto].
+Qed.
+
+Lemma suffix_wf gh gsx g locs bits nq ncl : forall idx clbit,
+  (forall s, In s idx -> nth s locs 0 < nq) -> (forall i, i < clbit + length idx -> nth i bits 0 < ncl) ->
+  wf nq ncl (suffix_from gh gsx g locs bits clbit idx) = true.
+Proof.
+  induction idx as [|s r IH]; intros clbit Q B; [reflexivity|]. simpl.
+  assert (Lq : Nat.ltb (nth s locs 0) nq = true) by (apply Nat.ltb_lt, Q; now left).
+  assert (Lb : Nat.ltb (nth clbit bits 0) ncl = true) by (apply Nat.ltb_lt, B; simpl; lia).
+  assert (R : wf nq ncl (suffix_from gh gsx g locs bits (S clbit) r) = true).
+  { apply IH; [intros; apply Q; now right|]. intros i Li. apply B. simpl. lia. }
+  destruct (nth s g 0) as [|[|[|?]]]; unfold wf in *; simpl; unfold wf_instr; simpl; rewrite Lq, Lb; simpl; exact R.
+Qed.
+
+Lemma amc_indep gh gsx n c regs d1 d2 g idx q1 :
+  append_measurement_circuit gh gsx (mkMC n c regs d1) g idx None = Ok q1 ->
+  exists q2, append_measurement_circuit gh gsx (mkMC n c regs d2) g idx None = Ok q2 /\ mnc q2 = c /\ mnq q2 = n.
+Proof.
+  unfold append_measurement_circuit. cbn [mnq mnc mcregs mdata].
+  destruct (negb (Nat.eqb n (length g))); [discriminate|].
+  destruct (find_obs_creg regs) as [bits|]; [|discriminate].
+  destruct (negb (Nat.eqb (length bits) (length (pauli_indices_or_dummy idx)))); [discriminate|].
+  destruct (negb (forallb _ (pauli_indices_or_dummy idx))); [discriminate|].
+  intros _. eexists. split; [reflexivity|]. split; reflexivity.
+Qed.
+
+(* the reference exists whenever the subexperiment does, and is a well-formed circuit *)
+Theorem reference_total gh gsx (env : benv) qc ids ms g idx out :
+  valid env (mdata qc) ids ms -> sub_ok (mnq qc) (mnc qc) (mdata qc) = true ->
+  ResetFree.finish gh gsx env qc ids ms g idx = Ok out ->
+  exists r, reference gh gsx env qc ids ms g idx = Ok r /\ mnq r = mnq qc /\ wf (mnq qc) (mnc r) (mdata r) = true.
+Proof.
+  intros Hv Hs E. pose proof E as E0. revert E.
+  unfold ResetFree.finish, pre_pass, reference, append_measurement_register.
+  destruct (existsb fst (mcregs qc)) eqn:EF; [discriminate|]. cbn [res_bind mdata mnc mnq mcregs].
+  rewrite (decompose_splice env (mdata qc) _ ids ms Hv). cbn [res_bind fst snd spec].
+  match goal with |- res_map _ ?R = _ -> _ => destruct R as [qc3| |] eqn:E3; try discriminate end.
+  intros _. pose proof E3 as E3'. apply amc_ok in E3' as (bits0 & _ & _ & Eg & FB). cbn [mnq] in Eg, FB.
+  eapply amc_indep in E3 as (r & Er & Enc & Enq). exists r. split; [exact Er|]. split; [exact Enq|].
+  pose proof Er as Ed. apply amc_data in Ed as (bits & Fb & _ & Ed). cbn [mnq mdata mcregs] in *.
+  rewrite <- app_assoc in Fb. simpl in Fb. rewrite (find_obs_creg_app _ _ _ EF) in Fb. injection Fb as <-.
+  rewrite Ed, Enc, wf_app. apply andb_true_intro. split.
+  - unfold measures_numbered. apply (measures_wf (mnq qc) (mnc qc)).
+    + apply Nat.le_max_r.
+    + lia.
+    + intros y I. eapply flat_splice_pre_ok; [|exact I]. apply sub_ok_assign. exact Hs.
+  - unfold measurement_suffix. apply suffix_wf.
+    + intros s Is. rewrite forallb_forall in FB. specialize (FB s Is). apply Nat.ltb_lt in FB. rewrite Eg in *.
+      destruct (Nat.lt_ge_cases s (length g)) as [L|L].
+      * rewrite (nth_indep _ 0 (length g)) by (now rewrite seq_length). rewrite seq_nth by assumption. simpl. lia.
+      * rewrite nth_overflow in FB by (now rewrite seq_length). lia.
+    + intros i Li. simpl in Li. rewrite seq_nth by assumption. lia.
+Qed.
+
+Theorem finish_values_total gh gsx (env : benv) qc ids ms g idx out :
+  valid env (mdata qc) ids ms -> sub_ok (mnq qc) (mnc qc) (mdata qc) = true ->
+  ResetFree.finish gh gsx env qc ids ms g idx = Ok out ->
+  exists r, reference gh gsx env qc ids ms g idx = Ok r /\
+    wf (mnq qc) (mnc r) (mdata r) = true /\
+    forall k, (idx = [] -> k <> mnc qc) ->
+      nth k (hc (denote (mnq qc) (mnc r) out)) None = nth k (hc (denote (mnq qc) (mnc r) (mdata r))) None.
+Proof.
+  intros Hv Hs E. destruct (reference_total _ _ _ _ _ _ _ _ _ Hv Hs E) as (r & Er & _ & W).
+  exists r. split; [assumption|]. split; [assumption|]. intros k Hk.
+  exact (finish_values gh gsx env qc ids ms g idx out r (mnc r) Hv E Er W k Hk).
+Qed.
+
+Lemma sub_ok_sub_wf nq nc sub : sub_ok nq nc sub = true -> sub_wf nq sub = true.
+Proof.
+  unfold sub_ok, sub_wf. intros H. apply andb_true_intro. split.
+  - apply (wf_resets_wf nq nc). unfold wf. rewrite forallb_forall in *. intros x I. specialize (H x I).
+    unfold sub_instr_ok in H. now apply andb_prop in H.
+  - rewrite forallb_forall in *. intros x I. specialize (H x I). unfold sub_instr_ok in H. apply andb_prop in H as [W A].
+    unfold wf_instr in W. apply andb_prop in W as [W _]. apply andb_prop in W as [W _]. rewrite forallb_forall in W.
+    unfold ph_wf. destruct (iop x); try reflexivity.
+    + apply andb_prop in A as [A _]. apply Nat.eqb_eq in A. destruct (iqs x) as [|a [|a' [|? ?]]]; try discriminate.
+      simpl. rewrite (W a), (W a') by (simpl; auto). reflexivity.
+    + apply andb_prop in A as [A _]. apply Nat.eqb_eq in A. destruct (iqs x) as [|a [|? ?]]; try discriminate.
+      simpl. apply W. simpl; auto.
+Qed.
+
+(* the second clause of the property on the model, in one statement *)
+Theorem second_clause gh gsx (env : benv) qc ids ms g idx out :
+  valid env (mdata qc) ids ms -> sub_ok (mnq qc) (mnc qc) (mdata qc) = true ->
+  ResetFree.finish gh gsx env qc ids ms g idx = Ok out ->
+  (no_leading_reset out /\ no_trailing_reset out /\ no_double_reset out) /\
+  exists r, reference gh gsx env qc ids ms g idx = Ok r /\
+    wf (mnq qc) (mnc r) (mdata r) = true /\
+    forall k, (idx = [] -> k <> mnc qc) ->
+      nth k (hc (denote (mnq qc) (mnc r) out)) None = nth k (hc (denote (mnq qc) (mnc r) (mdata r))) None.
+Proof.
+  intros Hv Hs E. split.
+  - exact (finish_postconditions gh gsx env qc ids ms g idx out Hv (sub_ok_sub_wf _ _ _ Hs) E).
+  - exact (finish_values_total gh gsx env qc ids ms g idx out Hv Hs E).
+Qed.
